@@ -83,7 +83,46 @@ def _work(args):
     return n, nontrivial, fails[:20]
 
 
-ELOP_DESCS = ["a [b]", "[a] b", "a [b c]", "[a b]...", "a [b...]", "[a]... b", "[a...]", "a... [b]", "a [b] 1", "(a [b]) c", "a ([b] c)", "[a] [b]", "a [b] [c]", "[a b] c...", "(a [b])...", "[a]...", "a [1]", "[a] 1 b", "a... [b c]", "[...]", "a [...]", "a [0]", "[0] a"]
+def structured_strings(depth):
+    """expressions built from the grammar (atoms, juxtaposition, parentheses, brackets, '+', ellipsis), nested `depth` times - reaches shapes such as
+    '(a b)...' or '[(a b)...] c' that lie beyond the token-sequence bound"""
+    level = ["a", "b", "2"]
+    seen = list(level)
+    for _ in range(depth):
+        nxt = []
+        for x in level:
+            nxt += [f"({x})", f"{x}...", f"{x} c", f"c {x}", f"({x} + d)"]
+            if "[" not in x:
+                nxt += [f"[{x}]", f"[{x}] c"]
+        for x, y in itertools.product(level[:6], repeat=2):
+            nxt += [f"{x} {y}", f"({x} {y})", f"({x} + {y})"]
+            if "[" not in x + y:
+                nxt.append(f"[{x} {y}]")
+        nxt = list(dict.fromkeys(nxt))
+        seen += nxt
+        level = nxt[:60]
+    return list(dict.fromkeys(seen))
+
+
+def structured_roundtrip(depth):
+    fails, n, ok = [], 0, 0
+    for s in structured_strings(depth):
+        n += 1
+        st, T, msg = parse(s)
+        if st.startswith("internal") or st == "timeout":
+            fails.append(("C12.B.total", s, f"parse_op({s!r}) {st}"))
+            continue
+        if st != "ok":
+            continue
+        ok += 1
+        d, s2 = dump(T), str(T)
+        st2, T2, _ = parse(s2)
+        if st2 != "ok" or dump(T2) != d:
+            fails.append(("C12.B.roundtrip", s, f"{s!r} parses, prints as {s2!r}, which {'is rejected' if st2 != 'ok' else 'parses to a different structure'}"))
+    return n, ok, fails
+
+
+ELOP_DESCS = ["[(a b)...] c", "([a b])... c", "[(a b)...]", "a [(b c)...]", "a [b]", "[a] b", "a [b c]", "[a b]...", "a [b...]", "[a]... b", "[a...]", "a... [b]", "a [b] 1", "(a [b]) c", "a ([b] c)", "[a] [b]", "a [b] [c]", "[a b] c...", "(a [b])...", "[a]...", "a [1]", "[a] 1 b", "a... [b c]", "[...]", "a [...]", "a [0]", "[0] a"]
 ELOP_OPS = ["sum", "max", "softmax", "flip", "argmax", "sort", "logsumexp", "roll"]
 
 
@@ -132,6 +171,10 @@ def add(chk, tier, seed):
         total += n
         nontriv += nt
         fails += f
+    sn, sok, sfails = structured_roundtrip(2 if tier == "quick" else 3)
+    total += sn
+    nontriv += sok
+    fails += sfails
     seen = set()
     for ob, s, detail in fails:
         if "|" in s and False:
